@@ -28,6 +28,9 @@ impl Reply {
 pub struct Sink {
     cases: BufWriter<File>,
     imp: BufWriter<File>,
+    /// the case being executed right now (`op + inputs`), rewritten before every `exec`: if the
+    /// implementation aborts the process or never returns, bin/check reads the culprit from here
+    pending: File,
     pub n: u64,
     pub stats: BTreeMap<String, u64>,
 }
@@ -38,12 +41,25 @@ impl Sink {
         Ok(Sink {
             cases: BufWriter::new(File::create(dir.join("cases.tsv"))?),
             imp: BufWriter::new(File::create(dir.join("impl.tsv"))?),
+            pending: File::create(dir.join("pending.case"))?,
             n: 0,
             stats: BTreeMap::new(),
         })
     }
     /// run one case on the implementation and record it.
     pub fn emit(&mut self, op: &str, inputs: &[String]) -> Option<Reply> {
+        {
+            use std::io::{Seek, SeekFrom};
+            let mut line = String::from(op);
+            for a in inputs {
+                line.push('\t');
+                line.push_str(a);
+            }
+            line.push('\n');
+            let _ = self.pending.seek(SeekFrom::Start(0));
+            let _ = self.pending.set_len(0);
+            let _ = self.pending.write_all(line.as_bytes());
+        }
         let r = crate::exec(op, inputs)?;
         let line = case_line(op, inputs, &r);
         writeln!(self.cases, "{line}").unwrap();
@@ -58,6 +74,7 @@ impl Sink {
     pub fn finish(mut self, dir: &Path) {
         self.cases.flush().unwrap();
         self.imp.flush().unwrap();
+        let _ = self.pending.set_len(0);
         let mut f = File::create(dir.join("stats.json")).unwrap();
         let body: Vec<String> = self.stats.iter().map(|(k, v)| format!("  {:?}: {}", k, v)).collect();
         writeln!(f, "{{\n{}\n}}", body.join(",\n")).unwrap();
